@@ -491,12 +491,12 @@ func c15compound(c *Check, rng *rand.Rand, timeoutMs int) {
 		}
 		if len(s.Replies) < n2 && !s.Closed {
 			c.Violate(Violation{Class: "client-left-waiting", Shape: label + "/unaffected-client",
-				Detail:  fmt.Sprintf("a client whose requests were on a healthy node holds %d of %d replies after another node was lost", len(s.Replies), n2), Witness: wit})
+				Detail: fmt.Sprintf("a client whose requests were on a healthy node holds %d of %d replies after another node was lost", len(s.Replies), n2), Witness: wit})
 		}
 		for i := 0; i < len(s.Replies) && i < n2; i++ {
 			if !bytes.Equal(s.Replies[i].Val.Raw, BulkReply([]byte("v:"+k2[i]))) {
 				c.Violate(Violation{Class: "wrong-reply-around-backend-loss", Shape: label + "/unaffected-client",
-					Detail:  fmt.Sprintf("request %d on a healthy node was answered %s", i, s.Replies[i].Val.String()), Witness: wit})
+					Detail: fmt.Sprintf("request %d on a healthy node was answered %s", i, s.Replies[i].Val.String()), Witness: wit})
 				break
 			}
 		}
